@@ -5,6 +5,7 @@
 // ------------------------------------------------------------------ scope
 struct Scope {
   int sigma = 2, L = 2, maxn = 0, co = -1, nf = 2, minn = 1, exact = 0;
+  str family; std::vector<int> depths;   // family=fibruns,depth=14+16: one set per depth instead of subsets of U
   int rep = 1;                   // replication: the set is repeated under `rep` distinct 2-byte group tags (many copies of one small pattern:
                                  // reaches the short-codeword regime of the statistical coders, which a handful of strings never does)
   str ramp;                      // "lex" | "shortlex" | "both": the sets are the first n strings of the universe in that order, n = 1..|U|
@@ -26,6 +27,8 @@ struct Scope {
       else if (e[0] == "nf") sc.nf = atoi(e[1].c_str());
       else if (e[0] == "exact") sc.exact = atoi(e[1].c_str());
       else if (e[0] == "rep") sc.rep = atoi(e[1].c_str());
+      else if (e[0] == "family") sc.family = e[1];
+      else if (e[0] == "depth") { for (auto &x : split(e[1], '+')) sc.depths.push_back(atoi(x.c_str())); }
       else if (e[0] == "ramp") sc.ramp = e[1];
       else if (e[0] == "pd") sc.pd = e[1];
       else if (e[0] == "pal") { sc.pals.clear(); for (auto &x : split(e[1], '+')) sc.pals.push_back(pal_by_name(x)); }
@@ -135,6 +138,41 @@ static strs sources_for(int k, const str &pd) {
 // ------------------------------------------------------------------ unit = (set, palette, stretch)
 struct Unit { setmask mask; int pal, stretch; int pre = 0; };
 
+// ------------------------------------------------------------------ named families
+// fibruns(d): for letter i < d ('a'+i) the runs c^1..c^n_i with n_i = round(20 * 1.272^i): the total weight of the letters grows by the
+// golden ratio, so the Huffman / Hu-Tucker codeword of letter d-1-k is about k bits longer than that of the last letter and every other
+// byte value (weight 1) gets a codeword longer than the 16-bit decoding chunk from d ~ 15 on (decoding subtrees, DecodingTree save/load).
+// Four strings of rare bytes ("#", "#~", "~", x~x) exercise strings made of long codewords only.
+static strs family_set(const str &fam, int depth) {
+  strs S;
+  if (fam == "fibruns") {
+    double n = 20.0;
+    for (int i = 0; i < depth; i++) { char c = (char)('a' + i); for (int l = 1; l <= (int)(n + 0.5); l++) S.push_back(str((size_t)l, c)); n *= 1.272; }
+    char last = (char)('a' + depth - 1);
+    S.push_back("#"); S.push_back("#~"); S.push_back("~"); S.push_back(str(1, last) + "~" + str(1, last));
+  } else { fprintf(stderr, "unknown family %s\n", fam.c_str()); exit(2); }
+  std::sort(S.begin(), S.end(), ult); S.erase(std::unique(S.begin(), S.end()), S.end());
+  return S;
+}
+// queries for a family cell, derived from the set alone (so that a replay from the witness strings rebuilds them): the first and last
+// three members, the shortest and longest member per leading byte, every member of <= 3 bytes, and absent neighbours
+static strs family_queries(const strs &S) {
+  strs q; std::set<str> seen;
+  auto add = [&](const str &x) { if (!x.empty() && seen.insert(x).second) q.push_back(x); };
+  for (size_t i = 0; i < S.size() && i < 3; i++) { add(S[i]); add(S[S.size() - 1 - i]); }
+  std::map<uchar, std::pair<str, str>> per;
+  for (auto &x : S) { auto &pr = per[(uchar)x[0]]; if (pr.first.empty() || x.size() < pr.first.size()) pr.first = x; if (x.size() > pr.second.size()) pr.second = x; }
+  for (auto &kv : per) { add(kv.second.first); add(kv.second.second); add(kv.second.second + kv.second.second.substr(0, 1)); add(kv.second.second.substr(0, kv.second.second.size() / 2)); }
+  for (auto &x : S) if (x.size() <= 3) add(x);
+  add("##"); add("a~"); add("~~"); add(str(1, (char)0x7F)); add(str(1, (char)0x02)); add(str(1, (char)0xFE)); add(S[0] + "~");
+  return q;
+}
+static Cell make_family_cell(const Scope &sc, int depth) {
+  Cell cell; cell.pal = 0; cell.sigma = sc.sigma; cell.L = sc.L; cell.stretch = 1; cell.family = sc.family;
+  cell.S = family_set(sc.family, depth);
+  cell.Q = family_queries(cell.S);
+  return cell;
+}
 static str rep_tag(int j) { char t[2] = {(char)('0' + j / 10), (char)('0' + j % 10)}; return str(t, 2); }
 // queries of a cell whose strings carry a common prefix of `pre` bytes and/or `rep` group tags
 static void shape_queries(Cell &cell, int pal, int pre, int rep) {
